@@ -1,6 +1,7 @@
 package main
 
 import (
+	"io"
 	"bufio"
 	"bytes"
 	"compress/gzip"
@@ -234,11 +235,32 @@ func (w *GCSWorld) Do(q HReq) *HResp {
 		req = req.WithContext(w.ctx)
 		w.ctx = nil
 	}
+	// the request body arrives over the network: every read of it is a scheduling point
+	// (a slow client), and the first read delivers only part of what was asked for
+	req.Body = &slowBody{in: req.Body}
 	rec := httptest.NewRecorder()
 	w.mux.ServeHTTP(rec, req)
 	res := rec.Result()
 	return &HResp{Status: res.StatusCode, Header: res.Header, Body: rec.Body.Bytes()}
 }
+
+type slowBody struct {
+	in io.ReadCloser
+	n  int
+}
+
+func (b *slowBody) Read(p []byte) (int, error) {
+	if b.n < 3 {
+		b.n++
+		hookYield("net.body.read")
+		if b.n == 1 && len(p) > 1 {
+			p = p[:(len(p)+1)/2]
+		}
+	}
+	return b.in.Read(p)
+}
+
+func (b *slowBody) Close() error { return b.in.Close() }
 
 // ---- URL helpers ----------------------------------------------------------------------------
 
